@@ -1115,7 +1115,10 @@ func (m *Machine) Remove(states S, args A) Result {
 		statesAny = append(statesAny, S{name})
 	}
 
-	if lenQueue == 0 && m.Transition() != nil && !m.Any(statesAny...) {
+	// (only on an idle machine: a running transition may be activating them)
+	if lenQueue == 0 && !m.queueRunning.Load() && m.Transition() == nil &&
+		!m.Any(statesAny...) {
+
 		return Executed
 	}
 
@@ -3331,7 +3334,10 @@ func (m *Machine) EvRemove(event *Event, states S, args A) Result {
 		statesAny = append(statesAny, S{name})
 	}
 
-	if lenQueue == 0 && m.Transition() != nil && !m.Any(statesAny...) {
+	// (only on an idle machine: a running transition may be activating them)
+	if lenQueue == 0 && !m.queueRunning.Load() && m.Transition() == nil &&
+		!m.Any(statesAny...) {
+
 		return Executed
 	}
 
